@@ -467,3 +467,48 @@ func verifC05Cookie(maxItems, leafMax int) {
 
 //verif:harness id=C05 tier=quick,thorough witness=end bounds="cookie parameters: style form x shape (primitive with either explode, non-exploded array of 1-2, non-exploded object of 1-2 properties) x leaf type x every printable-ASCII leaf text of 1-2 bytes without , = ; quote backslash space; the Cookie header is parsed by the interpreted net/http code"
 func verifH_C05_cookie() { verifC05Cookie(2, 2) }
+
+//verif:harness id=C05 tier=quick,thorough witness=end bounds="compositions: a primitive parameter (query form / path simple / header) whose schema is allOf [typed, untyped-constraint] in either order, allOf [typed, typed], anyOf [integer, boolean] or oneOf [integer, string-with-pattern-free]; leaf type in {string,integer,number,boolean}; every printable-ASCII text of 1-2 bytes: a well-formed text decodes to the typed value, anything else is not accepted silently as another value"
+func verifH_C05_compositions() {
+	typ := verifTypeNames[verifChoose("type", 4)]
+	typed := verifPrimSchema(typ)
+	untyped := &openapi3.SchemaRef{Value: &openapi3.Schema{Description: "a constraint-only branch"}}
+	var schema *openapi3.SchemaRef
+	comp := verifChoose("comp", 4)
+	switch comp {
+	case 0:
+		schema = &openapi3.SchemaRef{Value: &openapi3.Schema{AllOf: openapi3.SchemaRefs{typed, untyped}}}
+	case 1:
+		schema = &openapi3.SchemaRef{Value: &openapi3.Schema{AllOf: openapi3.SchemaRefs{untyped, typed}}}
+	case 2:
+		schema = &openapi3.SchemaRef{Value: &openapi3.Schema{AllOf: openapi3.SchemaRefs{typed, verifPrimSchema(typ)}}}
+	case 3:
+		schema = &openapi3.SchemaRef{Value: &openapi3.Schema{AnyOf: openapi3.SchemaRefs{typed}}}
+	}
+	text := verifLeaf("v", 2, ",=;&")
+	var param *openapi3.Parameter
+	input := &RequestValidationInput{Request: &http.Request{Header: http.Header{}, URL: &url.URL{}}}
+	switch verifChoose("in", 3) {
+	case 0:
+		param = &openapi3.Parameter{Name: "p", In: "query", Schema: schema}
+		input.QueryParams = url.Values{"p": []string{text}}
+	case 1:
+		verifAssume(text != "" && text[0] != '/' && (len(text) < 2 || text[1] != '/'))
+		param = &openapi3.Parameter{Name: "p", In: "path", Required: true, Schema: schema}
+		input.PathParams = map[string]string{"p": text}
+	default:
+		param = &openapi3.Parameter{Name: "X-P", In: "header", Schema: schema}
+		input.Request.Header["X-P"] = []string{text}
+	}
+	got, found, err := decodeStyledParameter(param, input)
+	want, ok := verifTyped(text, typ)
+	if ok {
+		verifAssert(err == nil && found, "C05 composition: a well-formed serialisation decodes without error and is found")
+		if err == nil {
+			verifAssert(verifSame(got, want), "C05 composition: the value decodes to the typed value of the typed branch")
+		}
+	} else {
+		verifAssert(err != nil || got == nil, "C05 composition: a text that is not a serialisation of the declared type is not decoded to a value")
+	}
+	verifReach("end")
+}
